@@ -304,6 +304,10 @@ class RepoClass:
     def issubclass_of(self, other):
         return other in self.mro()
 
+    @property
+    def __dict__(self):  # noqa: PLW3201 - models cls.__dict__ (names defined in the class body)
+        return self.members
+
     def __call__(self, *args, **kwargs):
         return self.interp.instantiate(self, list(args), dict(kwargs))
 
@@ -1176,6 +1180,8 @@ class Interp:
         h = self.lib.truth_hook(v)
         if h is not _MISSING:
             return h
+        if hasattr(v, "sym_len") and not hasattr(v, "__len__"):
+            return self.truth(v.sym_len() > 0)  # truthiness of a container of symbolic length
         return bool(v)
 
     def iterate(self, v):
